@@ -1057,3 +1057,88 @@ def extra_evidence():
     finally:
         shutil.rmtree(d, ignore_errors=True)
     return {"multi_head_start_rejected": all(v == "CommandError" for v in res.values()), "multi_head_start_probe": res}
+
+
+def canary(human, rec):
+    """corruptions of the observed output that violate C12_holds (o_on vs o_off): the decider must reject every one.
+    The online side is kept as observed; the offline side is damaged in one place per canary."""
+    import copy
+    out = rec.get("out") or {}
+    on, off = out.get("online"), out.get("offline")
+    if on is None or off is None:
+        return []
+    on_ok, off_ok = out.get("online_error") is None, out.get("offline_error") is None
+    posted = cf.string(out.get("posted", ""))
+
+    def term(o_off, ok_off):
+        return "mkOut %s %s %s" % (coq_obs(on, on_ok), coq_obs(o_off, ok_off), posted)
+
+    if on_ok != off_ok:
+        return []                      # already a violation (a known-finding case): nothing to corrupt
+    if not on_ok:
+        # both stopped by an error: the property only says "the other side fails too" -> turn one error into success
+        return [term(off, True)]
+    if json.dumps(on, sort_keys=True) != json.dumps(off, sort_keys=True):
+        return []                      # observed output already fails the decider (known finding)
+    cans = [term(off, False)]          # success turned into an error on one side
+    # a row lost
+    for k, t in enumerate(off["tabs"]):
+        if t["rows"]:
+            c = copy.deepcopy(off)
+            del c["tabs"][k]["rows"][-1]
+            cans.append(term(c, True))
+            break
+    # one literal changed by one character / one unit
+    done = False
+    for k, t in enumerate(off["tabs"]):
+        for i, row in enumerate(t["rows"]):
+            for j, v in enumerate(row):
+                v = list(v)
+                if v[0] == "text":
+                    nv = ["text", (v[1][:-1] + ("y" if v[1][-1:] != "y" else "z")) if v[1] else "x"]
+                elif v[0] == "int":
+                    nv = ["int", v[1] + 1]
+                elif v[0] == "null":
+                    nv = ["int", 0]
+                else:
+                    nv = ["num", v[1] + "1"]
+                c = copy.deepcopy(off)
+                c["tabs"][k]["rows"][i][j] = nv
+                cans.append(term(c, True))
+                done = True
+                break
+            if done:
+                break
+        if done:
+            break
+    # version rows: a revision lost, or a stale one left behind
+    c = copy.deepcopy(off)
+    if c["vers"]:
+        c["vers"] = c["vers"][:-1]
+    else:
+        c["vers"] = [99]
+    cans.append(term(c, True))
+    # schema: NOT NULL flag of a column flipped; an index / a table lost
+    if off["tabs"]:
+        c = copy.deepcopy(off)
+        c["tabs"][0]["cols"][0][3] = not c["tabs"][0]["cols"][0][3]
+        cans.append(term(c, True))
+        c = copy.deepcopy(off)
+        del c["tabs"][-1]
+        cans.append(term(c, True))
+    if off["idx"]:
+        c = copy.deepcopy(off)
+        c["idx"][0]["unique"] = not c["idx"][0]["unique"]
+        cans.append(term(c, True))
+    # the text SQLite keeps for a CREATE statement: one character changed
+    if off["raw"]:
+        c = copy.deepcopy(off)
+        c["raw"][0] = c["raw"][0][:-1] + ("#" if c["raw"][0][-1:] != "#" else "!")
+        cans.append(term(c, True))
+    cans = [x for x in cans if x != rec["cout"]]
+    # three kinds per case, rotating over the kinds that apply, so that every kind is exercised across the run
+    # (each term carries two whole observables: the full set on every case would double the run time)
+    if len(cans) > 3:
+        k0 = sum(ord(ch) for ch in rec["cin"][:400]) % len(cans)
+        cans = [cans[(k0 + i) % len(cans)] for i in range(3)]
+    return cans
